@@ -1685,27 +1685,47 @@ class Interp:
                 v = env.vars[n]
                 if is_term(v) and any(x in v.free_symbols for x in subs):
                     env.vars[n] = v.xreplace(subs)
-        # values assigned on a path that leaves the loop through `break` are visible after the loop
-        for c, be in fb.breaks:
-            rc = self.relative_cond(c, benv.pathcond)
-            brk = op("brk", to_term(rc).xreplace(subs) if subs else to_term(rc), lv)
-            for n in carried_names:
-                if n not in carried_syms:
-                    continue
-                vb = be.vars.get(n, MISSING)
-                if vb is MISSING or not is_term(vb) or vb == carried_syms[n]:
-                    continue
-                fe = final_env.vars.get(n, MISSING)
-                if fe is not MISSING and is_term(fe) and vb == fe:
-                    continue
-                vb2 = vb.xreplace(subs) if subs else vb
-                cur = env.vars.get(n)
-                if is_term(cur):
-                    env.vars[n] = ITE(brk, vb2, cur)
+        # A loop left through `break` skips its else clause; values assigned on the breaking path are
+        # visible after the loop.  Exhausting the iterable runs the else clause.
+        brk_env = None
+        brk_cond = None
+        if fb.breaks:
+            brk_env = env.fork()
+            conds = []
+            for c, be in fb.breaks:
+                rc = self.relative_cond(c, benv.pathcond)
+                rc = to_term(rc).xreplace(subs) if subs else to_term(rc)
+                conds.append(rc)
+                this = op("brk", rc, lv)
+                for n in carried_names:
+                    if n not in carried_syms:
+                        continue
+                    vb = be.vars.get(n, MISSING)
+                    if vb is MISSING or vb == carried_syms[n]:
+                        continue
+                    vb2 = to_term(vb)
+                    vb2 = vb2.xreplace(subs) if subs else vb2
+                    cur = brk_env.vars.get(n)
+                    if len(fb.breaks) == 1:
+                        brk_env.vars[n] = vb2
+                    elif is_term(cur):
+                        brk_env.vars[n] = ITE(this, vb2, cur)
+            brk_cond = op("brk", OR(*conds), lv)
         if st.orelse:
             fo = self.exec_block(st.orelse, env)
-            out.env = fo.env
             out.returns += fo.returns
+            out.breaks += fo.breaks
+            out.conts += fo.conts
+            normal_env = fo.env
+        else:
+            normal_env = env
+        if brk_env is None:
+            out.env = normal_env
+        elif normal_env is None:
+            brk_env.pathcond = AND(env.pathcond, brk_cond)
+            out.env = brk_env
+        else:
+            out.env = self.merge_envs(brk_cond, brk_env, normal_env, env)
         return out
 
     def relative_cond(self, c, base):
